@@ -43,7 +43,12 @@ def confirm(seed: Path, refactor: bool = False) -> dict:
         if rc:
             return {"error": o}
         env = {"PYTHONPATH": f"{wt}/src:{wt}", "SEED_CHECKOUT": wt}
-        rc, o = sh(f"{PY} {seed}/demo.py", cwd=wt, env=env)
+        # run the demo from inside the scratch worktree: demos that locate the sources relative to their own
+        # file must find this worktree's, not those of the directory the seed happens to be stored in
+        os.makedirs(f"{wt}/_seed/x", exist_ok=True)
+        sh(f"cp {seed}/demo.py {wt}/_seed/x/demo.py")
+        demo = f"{wt}/_seed/x/demo.py"
+        rc, o = sh(f"{PY} {demo}", cwd=wt, env=env)
         out["demo_clean_rc"] = rc
         rc, o = sh(f"git apply {seed}/patch.diff", cwd=wt)
         out["apply_rc"] = rc
@@ -56,7 +61,7 @@ def confirm(seed: Path, refactor: bool = False) -> dict:
         out["tests_ok"] = "678 passed, 1 error" in tail
         sh("git checkout -- examples", cwd=wt)
         sh(f"git apply {seed}/patch.diff", cwd=wt)  # in case the patch touches examples
-        rc, o = sh(f"{PY} {seed}/demo.py", cwd=wt, env=env)
+        rc, o = sh(f"{PY} {demo}", cwd=wt, env=env)
         out["demo_patched_rc"] = rc
         out["demo_patched_tail"] = o.strip()[-300:]
     finally:
